@@ -101,14 +101,15 @@ def run_check(prop, tier, replay=None):
                 if len(samples) < 3 and rng.random() < 0.01:
                     samples.append({"case": case, "result": lib.fmt_float(g.get("ok")) if isinstance(g, dict) else g})
                 continue
-            stats["mismatches"] += 1
-            fid = lib.classify(prop, case, m, findings)
-            if fid:
-                stats["known"] += 1
-                rep.known_hits[fid] = rep.known_hits.get(fid, 0) + 1
-            else:
-                stats["unknown"] += 1
-                unknown.append((case, g, e, m))
+            for m1 in (m if isinstance(m, list) else [m]):
+                stats["mismatches"] += 1
+                fid = lib.classify(prop, case, m1, findings)
+                if fid:
+                    stats["known"] += 1
+                    rep.known_hits[fid] = rep.known_hits.get(fid, 0) + 1
+                else:
+                    stats["unknown"] += 1
+                    unknown.append((case, g, e, m1))
     elif oracle is None:
         broken.append({"kind": "tie", "what": "oracle (extracted model) could not be built", "detail": ""})
 
